@@ -36,7 +36,13 @@ pub enum Op {
     /// after that many replayed journal entries
     Crash { n: usize, recrash: u32 },
     /// serialize -> deserialize in place, `times` times
-    RoundTrip { n: usize, times: u32 },
+    RoundTrip {
+        n: usize,
+        times: u32,
+        /// through serde_json instead of bincode (skipped when the state is not representable in JSON)
+        #[serde(default)]
+        json: bool,
+    },
     /// move the node to another worker thread
     Migrate { n: usize, w: usize },
     /// Display + Debug + accessors
